@@ -1,0 +1,42 @@
+//go:build verif
+// +build verif
+
+package media
+
+import (
+	"sync/atomic"
+	"time"
+)
+
+// VerifQueueState returns the queue length and discarding flag of a consumer.
+func VerifQueueState(s *Stream, cid CID) (qlen int, discarding bool, ok bool) {
+	cs := &s.consumptions
+	if cid.Type() == FLVPacket {
+		cs = &s.flvConsumptions
+	}
+	ci, ok := cs.Load(cid)
+	if !ok {
+		return 0, false, false
+	}
+	c := ci.(*consumption)
+	return c.recvQueue.Len(), c.discarding, true
+}
+
+// VerifIdleDecision runs the zero-consumer close decision once with period d.
+func VerifIdleDecision(s *Stream, closedStatus int32, d time.Duration) (closed bool) {
+	r := &runZeroConsumersClose{s: s, d: d, closedStats: closedStatus}
+	r.run()
+	return r.closed
+}
+
+// VerifStatus returns the stream status.
+func VerifStatus(s *Stream) int32 { return atomic.LoadInt32(&s.status) }
+
+// VerifRegistered returns the stream stored under the canonical key, if any.
+func VerifRegistered(key string) *Stream {
+	si, ok := streams.Load(key)
+	if ok {
+		return si.(*Stream)
+	}
+	return nil
+}
